@@ -93,28 +93,19 @@ def MinShape (m : List Char) : Prop := m.head? = some '0' → m = ['0']
 def LexEquiv (eqv : Num → Num → Bool) (s s' : List Char) : Prop :=
   s = s' ∨ ∃ a b, numOfLexeme s = some a ∧ numOfLexeme s' = some b ∧ eqv a b = true
 
-/-- **zero units, full statement**: for every property, enclosing function `name` (`[]` = top level), minified
-    number `m`, CSS unit `dim` and aliasing offset `d`, the zero-unit cut of `minifyTokens` yields a lexeme that
-    denotes the same quantity in that context.  *False* on the current code, see the two counterexamples. -/
-def zero_unit_full : Prop :=
-  ∀ (prop name m dim : List Char) (d : Nat), MinShape m → dim ∈ cssUnits →
-    LexEquiv (ctxEquiv name) (zeroCut prop (known (lower name)) (m ++ dim) (aliasedDim dim d)) (m ++ dim)
-
-/-- **zero units**: the cut is meaning-preserving whenever the context is one where CSS lets a zero drop its unit:
-    any `<length>` unit outside the typed math functions; an `<angle>` unit only inside the legacy functions
-    (known findings K-C04-4, K-C04-5 are exactly the two guards).  The regenerated table
-    `optionalZeroDimension` enters through the whole-table lemma `aliased_small`: adding a time, frequency,
-    resolution or flex unit to it breaks this proof. -/
-theorem zero_unit_partial (prop name m dim : List Char) (d : Nat)
-    (hm : MinShape m) (hu : dim ∈ cssUnits)
-    (hang : angleUnits.contains dim = true → legacyAngleFns.contains (lower name) = true)
-    (hmath : typedMathFns.contains (lower name) = false) :
-    LexEquiv (ctxEquiv name) (zeroCut prop (known (lower name)) (m ++ dim) (aliasedDim dim d)) (m ++ dim) := by
+/-- **zero units** (full strength since 7dece89 + 8662e59): for every property, enclosing function `name` (`[]` = top
+    level of the declaration; any spelling), minified number `m`, CSS unit `dim` and aliasing offset `d`, the zero-unit
+    cut of `minifyTokens` yields a lexeme that denotes the same quantity in that context: the unit of a zero is dropped
+    only for a `<length>` outside the typed math functions, and for an `<angle>` only inside the legacy functions.  The
+    regenerated table `optionalZeroDimension` enters through the whole-table lemma `aliased_small2` (adding a time,
+    frequency, resolution or flex unit breaks this proof), the function lists through `known_marker`. -/
+theorem zero_unit_ok (prop name m dim : List Char) (d : Nat) (hm : MinShape m) (hu : dim ∈ cssUnits) :
+    LexEquiv (ctxEquiv name) (zeroCut prop (argFun name) (m ++ dim) (aliasedDim dim d)) (m ++ dim) := by
   unfold zeroCut
   split
   · rename_i hc
-    simp only [Bool.and_eq_true, decide_eq_true_eq, beq_iff_eq] at hc
-    obtain ⟨⟨⟨⟨_, hh⟩, hz⟩, _⟩, _⟩ := hc
+    simp only [Bool.and_eq_true, decide_eq_true_eq, beq_iff_eq, Bool.or_eq_true, Bool.not_eq_true'] at hc
+    obtain ⟨⟨⟨⟨_, hh⟩, hz⟩, _⟩, hctx⟩ := hc
     have hmne : m ≠ [] := by
       intro e; subst e
       simp at hh
@@ -127,61 +118,45 @@ theorem zero_unit_partial (prop name m dim : List Char) (d : Nat)
     subst hm0
     right
     refine ⟨.number 0, .dimension 0 dim, lex_zero, lex_zero_unit dim hu, ?_⟩
-    have hunit := aliased_unit dim d hu hz
-    simp only [ctxEquiv, Num.isZero, hmath]
-    simp only [Bool.or_eq_true] at hunit
-    rcases hunit with hl | ha
-    · simp; left; simpa using hl
-    · simp; right; exact ⟨by simpa using ha, by simpa using hang ha⟩
+    obtain ⟨hunit, hlen⟩ := aliased_unit2 dim d hu hz
+    rcases hctx with ⟨hf, hna⟩ | hf
+    · -- no function, or one the code knows nothing about: only lengths
+      have hmath := argFun_nil name hf
+      have hl := hlen hna
+      simp only [ctxEquiv, Num.isZero, hmath]
+      simp; left; simpa using hl
+    · -- a legacy angle function
+      obtain ⟨hleg, hmath⟩ := argFun_marker name hf
+      simp only [ctxEquiv, Num.isZero, hmath]
+      simp only [Bool.or_eq_true] at hunit
+      rcases hunit with hl | ha
+      · simp; left; simpa using hl
+      · simp; right; exact ⟨by simpa using ha, by simpa using hleg⟩
   · left; rfl
 
-example : MinShape ['0'] ∧ S "px" ∈ cssUnits ∧ typedMathFns.contains (lower (S "translate")) = false ∧
-    zeroCut (S "transform") (known (lower (S "translate"))) (S "0px") (aliasedDim (S "px") 0) = ['0'] := by
-  refine ⟨fun _ => rfl, by decide, by decide, by decide⟩
+example : MinShape ['0'] ∧ S "px" ∈ cssUnits ∧
+    zeroCut (S "transform") (argFun (S "translate")) (S "0px") (aliasedDim (S "px") 0) = ['0'] ∧
+    zeroCut (S "transform") (argFun (S "ROTATE")) (S "0deg") (aliasedDim (S "deg") 0) = ['0'] := by
+  refine ⟨fun _ => rfl, by decide, by decide +kernel, by decide +kernel⟩
 
-/-- K-C04-4: `rotate:0deg` → `rotate:0` — a bare `0` is not an `<angle>` at the top level of a declaration -/
-theorem zero_unit_counterexample_angle : ¬ zero_unit_full := by
-  intro h
-  have h1 := h (S "rotate") [] ['0'] (S "deg") 0 (fun _ => rfl) (by decide)
-  have hcut : zeroCut (S "rotate") (known (lower [])) (['0'] ++ S "deg") (aliasedDim (S "deg") 0) = ['0'] := by
-    decide
-  rw [hcut] at h1
-  rcases h1 with h2 | ⟨a, b, ha, hb, he⟩
-  · exact absurd h2 (by decide)
-  · have ha' : a = .number 0 := by rw [lex_zero] at ha; exact (Option.some.inj ha).symm
-    have hb' : b = .dimension 0 (S "deg") := by
-      have : numOfLexeme (['0'] ++ S "deg") = some (.dimension 0 (S "deg")) := by decide +kernel
-      rw [this] at hb; exact (Option.some.inj hb).symm
-    subst ha'; subst hb'
-    exact absurd he (by decide +kernel)
-
-/-- K-C04-5: `hypot(0px,3px)` → `hypot(0,3px)` — inside a typed math function a bare `0` is a `<number>` -/
-theorem zero_unit_counterexample_math : ¬ zero_unit_full := by
-  intro h
-  have h1 := h (S "width") (S "hypot") ['0'] (S "px") 0 (fun _ => rfl) (by decide)
-  have hcut : zeroCut (S "width") (known (lower (S "hypot"))) (['0'] ++ S "px") (aliasedDim (S "px") 0) = ['0'] := by
-    decide
-  rw [hcut] at h1
-  rcases h1 with h2 | ⟨a, b, ha, hb, he⟩
-  · exact absurd h2 (by decide)
-  · have ha' : a = .number 0 := by rw [lex_zero] at ha; exact (Option.some.inj ha).symm
-    have hb' : b = .dimension 0 (S "px") := by
-      have : numOfLexeme (['0'] ++ S "px") = some (.dimension 0 (S "px")) := by decide +kernel
-      rw [this] at hb; exact (Option.some.inj hb).symm
-    subst ha'; subst hb'
-    exact absurd he (by decide +kernel)
+/-- the former counterexamples (known findings K-C04-4, K-C04-5, fixed by 7dece89 and 8662e59): the unit stays -/
+example : zeroCut (S "rotate") (argFun []) (S "0deg") (aliasedDim (S "deg") 0) = S "0deg" ∧
+    zeroCut (S "width") (argFun (S "hypot")) (S "0px") (aliasedDim (S "px") 0) = S "0px" ∧
+    zeroCut (S "offset-path") (argFun (S "ray")) (S "0deg") (aliasedDim (S "deg") 0) = S "0deg" := by
+  decide +kernel
 
 /-- no unit is ever dropped from a percentage, a time, a frequency, a resolution or a flex fraction, in `flex`,
-    or inside a function `css.ToHash` knows (`calc`, `min`, `max`, `clamp`, `var`, gradients, …) -/
+    or inside a function `css.ToHash` knows (`calc`, `min`, `max`, `clamp`, `var`, gradients, …) or a typed math
+    function -/
 theorem zero_unit_kept (prop fn d seen : List Char)
-    (h : optionalZeroDimension.contains seen = false ∨ prop = S "flex" ∨ fn ≠ []) :
+    (h : optionalZeroDimension.contains seen = false ∨ prop = S "flex" ∨ (fn ≠ [] ∧ fn ≠ zeroAngleFn)) :
     zeroCut prop fn d seen = d := by
   unfold zeroCut
   rcases h with h | h | h
   · have h' : ¬ seen ∈ optionalZeroDimension := by simpa using h
     rw [if_neg]; simp; intro _ _ hc; exact absurd hc h'
   · subst h; simp
-  · rw [if_neg]; simp [h]
+  · rw [if_neg]; simp [h.1, h.2]
 
 /-! ## (c) colours -/
 
